@@ -369,7 +369,11 @@ func (g *bgen) schema(doc string, depth int, allowRef bool) O {
 		}
 		return s
 	case k < 77: // array
-		return O{"type": "array", "items": g.schema(doc, depth+1, allowRef)}
+		s := O{"type": "array", "items": g.schema(doc, depth+1, allowRef)}
+		if g.Pct(8) {
+			s["additionalItems"] = g.schema(doc, depth+1, allowRef) // unusual but loadable: additionalItems next to a single items schema
+		}
+		return s
 	case k < 85: // tuple
 		n := g.Int(1, 3)
 		var its A
@@ -639,6 +643,16 @@ func GenFlattenCase(d *D, cfg BundleCfg) *FlattenCase {
 	if as := g.auxWith("pathItems"); len(as) > 0 && g.Pct(50) {
 		g.Label("ref:remote-pathitem")
 		paths["/remote"] = O{"$ref": g.Pick(as) + Frag("pathItems", "pi")}
+	}
+	if len(g.aux) > 0 && g.Pct(15) {
+		// a path item that is a whole auxiliary document of its own
+		g.Label("ref:whole-document-pathitem")
+		op := O{"responses": O{"200": O{"description": "whole", "schema": g.schema("other/pi.json", 1, true)}}}
+		if g.Pct(50) {
+			op["parameters"] = A{O{"name": "wb", "in": "body", "schema": g.schema("other/pi.json", 1, true)}}
+		}
+		b.Aux["other/pi.json"] = O{"post": op}
+		paths["/whole"] = O{"$ref": "other/pi.json"}
 	}
 	if len(defs) > 0 {
 		root["definitions"] = defs
